@@ -63,7 +63,7 @@ class Session:
                 break
             time.sleep(0.0005)
         else:
-            raise RuntimeError("active endpoint did not send Select.req")
+            raise common.Wedged("the active endpoint did not send Select.req after the connect")
         system = blocks[0].header.system
         self.requesters[system] = (self.proto._select_req_thread, self.auto_holders.pop())
         return system
@@ -101,13 +101,13 @@ class Session:
 
     def settle(self):
         if not self.rig.settle():
-            raise RuntimeError("session rig did not settle")
+            raise common.Wedged("the library threads did not come to rest")
         # a requester whose response arrived runs until it has returned; the others stay parked in their queue
         deadline = time.monotonic() + 5
         for system, (th, holder) in list(self.requesters.items()):
             while not holder["done_event"].is_set() and not self._requester_parked(system):
                 if time.monotonic() > deadline:
-                    raise RuntimeError("requester neither parked nor finished")
+                    raise common.Wedged("a requester neither waits for its response nor has returned")
                 time.sleep(0.0002)
             if holder["done_event"].is_set():
                 th.join(2)
@@ -133,6 +133,8 @@ class Session:
         while len(self.rig.conn.sent) == before and time.monotonic() < deadline:
             time.sleep(0.0005)
         blocks = split_frames(self.rig.conn.sent[before:])
+        if not blocks:
+            raise common.Wedged("the endpoint's own request was not written to the connection within 5 s")
         system = blocks[0].header.system
         self.requesters[system] = (th, holder)
         return system
@@ -251,7 +253,7 @@ def run_history(events, active=False):
 
 
 def case_lit(events, active=False):
-    ce, outs, states = run_history(events, active)
+    ce, outs, states = common.with_deadline(lambda: run_history(events, active), 40.0)
     return ("{| w_events := [" + ";".join(ce) + "]; w_outs := [" + ";".join("[" + ";".join(o) + "]" for o in outs) + "]; w_states := ["
             + ";".join(f"{s}%nat" for s in states) + "] |}")
 
@@ -287,13 +289,26 @@ def rand_history(rnd, n, active=False):
     return evs
 
 
+WEDGED = []
+
+
+def add_case(lits, kind, hist, active=False):
+    if len(WEDGED) >= 3:
+        return
+    try:
+        lits.append((kind, case_lit(hist, active=active), hist))
+    except common.Wedged as exc:
+        WEDGED.append({"kind": kind, "history": hist, "active": active, "blocked_in": str(exc)})
+
+
 def gen_cases(rnd, tier):
     lits = []
+    del WEDGED[:]
     n = 120 if tier == "quick" else 1000
     for _ in range(n):
         active = rnd.random() < 0.4
         hist = rand_history(rnd, rnd.randint(1, 12 if tier == "quick" else 40), active)
-        lits.append(("active" if active else "passive", case_lit(hist, active=active), hist))
+        add_case(lits, "active" if active else "passive", hist, active)
     # directed ones: data before select, select twice, deselect, stale responses, requests while closing
     directed = [
         [("connected",), ("data", 5, 1, 1, True, True), ("ctrl", 1, 8, 0), ("data", 6, 1, 1, True, True), ("data", 7, 99, 1, True, True), ("data", 8, 1, 13, True, False)],
@@ -313,14 +328,14 @@ def gen_cases(rnd, tier):
         [("connected",), ("ctrl", 1, 8, 0), ("open", 3, "a"), ("ctrl", 3, 9, 0), ("ctrl", 4, "a", 0), ("data", 9, 1, 1, True, True)],
     ]
     for h in directed:
-        lits.append(("directed", case_lit(h), h))
+        add_case(lits, "directed", h)
     # the active endpoint: its own Select.req accepted, refused, unanswered, crossed with the peer's Select.req
     for h in [[("connected",), ("ctrl", 2, "auto", 0), ("data", 9, 1, 1, True, True)],
               [("connected",), ("ctrl", 2, "auto", 1), ("data", 9, 1, 1, True, True)],
               [("connected",), ("giveup", "auto"), ("ctrl", 2, "auto", 0), ("data", 9, 1, 1, True, True)],
               [("connected",), ("ctrl", 1, 8, 0), ("ctrl", 2, "auto", 0), ("data", 9, 1, 1, True, True)],
               [("connected",), ("ctrl", 2, "auto", 0), ("closed",), ("connected",), ("ctrl", 2, "auto", 0), ("ctrl", 5, 3, 0)]]:
-        lits.append(("directed-active", case_lit(h, active=True), h))
+        add_case(lits, "directed-active", h, True)
     return lits
 
 
@@ -373,6 +388,9 @@ def run(tier, replay=None):
     rnd = common.rng("c05")
     lits = gen_cases(rnd, tier)
     bad, stats = evaluate(lits, "c05")
+    for w in WEDGED[:2]:
+        report.violation({"kind": "counterexample", "what": "the endpoint blocked while this history was played (a library call did not return within 40 s)", **w,
+                          "broken_obligation": proof.get("broken")}, True, tag="wedged")
     known = {e["id"]: e for e in common.known_findings("C05") if e.get("status") == "open"}
     spec_bad = [(i, m, sc) for i, m, sc in bad if sc >= 30]
     model_bad = [(i, m, sc) for i, m, sc in bad if m >= 10 and sc < 30]
